@@ -5,7 +5,7 @@
 cd /verif
 ids="$@"; [ -z "$ids" ] && ids=$(ls seeded)
 for id in $ids; do
-  checks=$(python3 -c "import json;print(' '.join(json.load(open('seeded/$id/meta.json'))['checks']))")
+  checks=$(python3 -c "import json;cl={c['property_id'] for c in json.load(open('MANIFEST.json'))['checks']};print(' '.join(c for c in json.load(open('seeded/$id/meta.json'))['checks'] if c in cl))")
   [ -z "$checks" ] && { echo "$id: no check claims this property yet"; continue; }
   echo "### $id -> $checks"
   tools/try_seeded.sh $id $checks
